@@ -12,7 +12,7 @@
 
 use serde_json::json;
 use std::time::{Duration, Instant};
-use vbelief::case::{Case, Event, Mode, Spec, Stance, Window, EVAL_TIMES};
+use vbelief::case::{Case, EVAL_TIMES, Event, Mode, Spec, Stance, Window};
 use vbelief::model::{self, POLICIES};
 use vbelief::runner::{self, Outcome, Plan};
 use vcore::{Run, Tier, util};
@@ -26,7 +26,12 @@ enum Life {
     /// superseded by a live rejecting claim citing other evidence
     SupersededByLive,
 }
-const LIVES: [Life; 4] = [Life::Active, Life::Retracted, Life::SupersededByDead, Life::SupersededByLive];
+const LIVES: [Life; 4] = [
+    Life::Active,
+    Life::Retracted,
+    Life::SupersededByDead,
+    Life::SupersededByLive,
+];
 
 /// Abstract statement: assertions carry a label, later statements refer to labels.
 #[derive(Clone, Copy, Debug)]
@@ -47,7 +52,10 @@ fn subject(spec: Spec, life: Life, label: char) -> Vec<Abs> {
                 Spec {
                     conf: 3,
                     mode: Mode::Stated,
-                    window: Window { from: None, until: Some(0) },
+                    window: Window {
+                        from: None,
+                        until: Some(0),
+                    },
                     ..spec
                 },
                 Some(label),
@@ -93,23 +101,36 @@ fn merges(a: &[Abs], b: &[Abs]) -> Vec<Vec<Abs>> {
 
 fn concrete(functional: bool, abs: &[Abs]) -> Case {
     let mut labels: Vec<char> = Vec::new();
-    let ordinal = |labels: &Vec<char>, l: char| labels.iter().position(|x| *x == l).expect("label recorded before use") as u8;
+    let ordinal = |labels: &Vec<char>, l: char| {
+        labels
+            .iter()
+            .position(|x| *x == l)
+            .expect("label recorded before use") as u8
+    };
     let mut events = Vec::new();
     for a in abs {
         match a {
             Abs::Assert(label, spec, sup) => {
                 let superseding = sup.map(|l| ordinal(&labels, l));
                 labels.push(*label);
-                events.push(Event::Assert { spec: *spec, superseding });
+                events.push(Event::Assert {
+                    spec: *spec,
+                    superseding,
+                });
             }
-            Abs::Retract(l) => events.push(Event::Retract { ordinal: ordinal(&labels, *l) }),
+            Abs::Retract(l) => events.push(Event::Retract {
+                ordinal: ordinal(&labels, *l),
+            }),
         }
     }
     Case { functional, events }
 }
 
 fn group(functional: bool, x: &[Abs], y: &[Abs]) -> Vec<Case> {
-    merges(x, y).iter().map(|m| concrete(functional, m)).collect()
+    merges(x, y)
+        .iter()
+        .map(|m| concrete(functional, m))
+        .collect()
 }
 
 fn x_spec(rival: bool, stance: Stance, conf: u8, mode: Mode, window: Window) -> Spec {
@@ -133,9 +154,15 @@ struct Stage {
 
 fn stages(tier: Tier) -> Vec<Stage> {
     // baseline, lax (.5/.1), accept-only .9, material-only .1, forecast, modes [hypothetical, stated]
-    let all_q: Vec<(usize, usize)> = EVAL_TIMES.iter().flat_map(|t| [0usize, 2, 5, 6, 3, 4].map(|p| (*t, p))).collect();
+    let all_q: Vec<(usize, usize)> = EVAL_TIMES
+        .iter()
+        .flat_map(|t| [0usize, 2, 5, 6, 3, 4].map(|p| (*t, p)))
+        .collect();
     // baseline, forecast, hypothetical+stated: the three mode sets; thresholds do not matter to eligibility
-    let mode_q: Vec<(usize, usize)> = EVAL_TIMES.iter().flat_map(|t| [0usize, 3, 4].map(|p| (*t, p))).collect();
+    let mode_q: Vec<(usize, usize)> = EVAL_TIMES
+        .iter()
+        .flat_map(|t| [0usize, 3, 4].map(|p| (*t, p)))
+        .collect();
     let mut v = Vec::new();
 
     // 1 assertion: lifecycle x mode x window x stance (x confidence), plain / functional-own / functional-rival
@@ -147,7 +174,11 @@ fn stages(tier: Tier) -> Vec<Stage> {
                 for window in Window::ALL {
                     for stance in Stance::ALL {
                         for &conf in confs {
-                            one.push(group(functional, &subject(x_spec(rival, stance, conf, mode, window), life, 'x'), &[]));
+                            one.push(group(
+                                functional,
+                                &subject(x_spec(rival, stance, conf, mode, window), life, 'x'),
+                                &[],
+                            ));
                         }
                     }
                 }
@@ -165,23 +196,45 @@ fn stages(tier: Tier) -> Vec<Stage> {
     });
 
     // 2 assertions: X over lifecycle x mode x window, Y a fixed always-recorded witness
-    let y = |rival: bool, actor: u8, ev: u8, stance: Stance, conf: u8, mode: Mode, window: Window| Spec {
-        rival,
-        actor,
-        ev,
-        stance,
-        conf,
-        mode,
-        window,
-    };
+    let y =
+        |rival: bool, actor: u8, ev: u8, stance: Stance, conf: u8, mode: Mode, window: Window| {
+            Spec {
+                rival,
+                actor,
+                ev,
+                stance,
+                conf,
+                mode,
+                window,
+            }
+        };
     let none = Window::NONE;
     let witnesses_plain = [
-        y(false, 0, 0, Stance::Support, 3, Mode::Stated, none),                                   // same actor
-        y(false, 1, 0b001, Stance::Support, 6, Mode::Observed, none),                             // same evidence
-        y(false, 1, 0, Stance::Reject, 6, Mode::Inferred, none),                                  // other side
-        y(false, 0, 0, Stance::Uncertain, 0, Mode::Stated, none),                                 // engagement only
-        y(false, 1, 0b001, Stance::Support, 6, Mode::Hypothetical, none),                         // itself inadmissible by default
-        y(false, 2, 0b010, Stance::Support, 6, Mode::Imported, Window { from: Some(2), until: Some(4) }), // itself windowed
+        y(false, 0, 0, Stance::Support, 3, Mode::Stated, none), // same actor
+        y(false, 1, 0b001, Stance::Support, 6, Mode::Observed, none), // same evidence
+        y(false, 1, 0, Stance::Reject, 6, Mode::Inferred, none), // other side
+        y(false, 0, 0, Stance::Uncertain, 0, Mode::Stated, none), // engagement only
+        y(
+            false,
+            1,
+            0b001,
+            Stance::Support,
+            6,
+            Mode::Hypothetical,
+            none,
+        ), // itself inadmissible by default
+        y(
+            false,
+            2,
+            0b010,
+            Stance::Support,
+            6,
+            Mode::Imported,
+            Window {
+                from: Some(2),
+                until: Some(4),
+            },
+        ), // itself windowed
     ];
     let mut two = Vec::new();
     for life in LIVES {
@@ -193,9 +246,33 @@ fn stages(tier: Tier) -> Vec<Stage> {
                 }
                 // functional: X about the rival value with a supporter / rejecter of v0; X about v0 with a rival supporter
                 let xr = subject(x_spec(true, Stance::Support, 9, mode, window), life, 'x');
-                two.push(group(true, &xr, &[Abs::Assert('y', y(false, 0, 0, Stance::Support, 6, Mode::Stated, none), None)]));
-                two.push(group(true, &xr, &[Abs::Assert('y', y(false, 1, 0b001, Stance::Reject, 6, Mode::Stated, none), None)]));
-                two.push(group(true, &x, &[Abs::Assert('y', y(true, 1, 0b001, Stance::Support, 6, Mode::Stated, none), None)]));
+                two.push(group(
+                    true,
+                    &xr,
+                    &[Abs::Assert(
+                        'y',
+                        y(false, 0, 0, Stance::Support, 6, Mode::Stated, none),
+                        None,
+                    )],
+                ));
+                two.push(group(
+                    true,
+                    &xr,
+                    &[Abs::Assert(
+                        'y',
+                        y(false, 1, 0b001, Stance::Reject, 6, Mode::Stated, none),
+                        None,
+                    )],
+                ));
+                two.push(group(
+                    true,
+                    &x,
+                    &[Abs::Assert(
+                        'y',
+                        y(true, 1, 0b001, Stance::Support, 6, Mode::Stated, none),
+                        None,
+                    )],
+                ));
             }
         }
     }
@@ -210,7 +287,11 @@ fn stages(tier: Tier) -> Vec<Stage> {
         // both assertions range over lifecycle x mode x window
         let lives = [Life::Active, Life::Retracted, Life::SupersededByDead];
         let mut both = Vec::new();
-        for (actor, ev, label) in [(0u8, 0u8, "same actor"), (1, 0b001, "same evidence"), (1, 0b010, "independent")] {
+        for (actor, ev, label) in [
+            (0u8, 0u8, "same actor"),
+            (1, 0b001, "same evidence"),
+            (1, 0b010, "independent"),
+        ] {
             let _ = label;
             for stance2 in [Stance::Support, Stance::Reject] {
                 for l1 in lives {
@@ -255,7 +336,9 @@ fn nontrivial(case: &Case, queries: &[(usize, usize)]) -> bool {
     for &(at, pol) in queries {
         let p = model::project(case, case.events.len(), false, at, &POLICIES[pol]);
         excluded |= !p.excluded.is_empty();
-        counted |= !p.support.ordinals.is_empty() || !p.opposition.ordinals.is_empty() || !p.uncertain.is_empty();
+        counted |= !p.support.ordinals.is_empty()
+            || !p.opposition.ordinals.is_empty()
+            || !p.uncertain.is_empty();
     }
     excluded && counted
 }
@@ -263,7 +346,8 @@ fn nontrivial(case: &Case, queries: &[(usize, usize)]) -> bool {
 fn main() {
     let mut run = Run::from_args("C20", "eligibility", "exploration");
     if let Some(file) = run.replay_file.clone() {
-        let doc: serde_json::Value = serde_json::from_slice(&std::fs::read(&file).expect("read replay")).expect("json");
+        let doc: serde_json::Value =
+            serde_json::from_slice(&std::fs::read(&file).expect("read replay")).expect("json");
         for v in runner::replay(&doc) {
             run.violation(v);
         }
@@ -273,6 +357,7 @@ fn main() {
     let deadline = Instant::now() + Duration::from_secs_f64(run.remaining_s());
     let threads = util::n_threads();
     let mut completed = 0usize;
+    let mut stage_log: Vec<serde_json::Value> = Vec::new();
     for stage in stages(run.tier) {
         if !run.in_budget() {
             run.cap_hit(&format!("time budget: stage '{}' not started", stage.name));
@@ -300,18 +385,31 @@ fn main() {
             compare_within_group: true,
         };
         let t0 = Instant::now();
-        let outcomes: Vec<Outcome> = util::par_map(jobs.into_iter().enumerate().collect(), threads, |(j, groups)| {
-            runner::run_groups(&format!("e{}j{j}", stage.depth), &groups, &plan, Some(deadline))
-        });
+        let outcomes: Vec<Outcome> = util::par_map(
+            jobs.into_iter().enumerate().collect(),
+            threads,
+            |(j, groups)| {
+                runner::run_groups(
+                    &format!("e{}j{j}", stage.depth),
+                    &groups,
+                    &plan,
+                    Some(deadline),
+                )
+            },
+        );
         let mut stopped = false;
         for o in outcomes {
-            run.add("evaluations", o.evaluations + o.entry_point_checks + o.restab_checks + o.order_comparisons);
+            run.add(
+                "evaluations",
+                o.evaluations + o.entry_point_checks + o.restab_checks + o.order_comparisons,
+            );
             run.add("projections_vs_model", o.evaluations);
             run.add("histories_recorded", o.histories);
             run.add("statement_sets", o.groups);
             run.add("interleaving_comparisons", o.order_comparisons);
             run.add("entry_point_checks", o.entry_point_checks);
             run.add("reprojection_checks", o.restab_checks);
+            run.add("note_other_value_ineligible_not_listed", o.other_value_unlisted);
             run.add("nexus_instances", o.worlds);
             run.add("kml_transactions", o.statements);
             run.add("kql_queries", o.queries);
@@ -331,14 +429,25 @@ fn main() {
                 run.violation(v);
             }
         }
-        eprintln!("stage '{}': {} statement sets, {} histories, {:.1}s", stage.name, n_groups, n_hist, t0.elapsed().as_secs_f64());
+        eprintln!(
+            "stage '{}': {} statement sets, {} histories, {:.1}s",
+            stage.name,
+            n_groups,
+            n_hist,
+            t0.elapsed().as_secs_f64()
+        );
+        stage_log.push(json!({"stage": stage.name, "statement_sets": n_groups, "histories": n_hist, "completed": !stopped, "wall_s": (t0.elapsed().as_secs_f64() * 10.0).round() / 10.0}));
         if stopped {
-            run.cap_hit(&format!("time budget: stage '{}' stopped early", stage.name));
+            run.cap_hit(&format!(
+                "time budget: stage '{}' stopped early",
+                stage.name
+            ));
         } else {
             completed = completed.max(stage.depth);
         }
     }
     run.set("completed_assertions_per_history", json!(completed));
+    run.set("stages", json!(stage_log));
     run.rule(
         "eligibility is per row (lifecycle, window vs evaluation time, mode vs policy) and grouping only sees rows that passed, so eligibility is enumerated on 1-2 assertions: \
          every lifecycle {active, retracted, superseded by an expired claim, superseded by a live claim} x every mode (6) x 7 validity windows (none, ended before, starts after, starts exactly at / ends exactly at an evaluation time, both boundaries, strictly inside) x stance, \
@@ -347,6 +456,7 @@ fn main() {
          distinct non-trivial = history in which some assertion is excluded at one of the queries and some assertion counts at one of them",
     );
     run.assume("validity windows and evaluation times from a 7-point yearly grid; replacement claims of superseded assertions are fixed (one expired, one live)");
+    run.assume("listing in explanation.excluded is demanded for ineligible assertions about the projected proposition; ineligible assertions about the rival value of a functional slot are listed in the rival's own projection only (counter note_other_value_ineligible_not_listed), which the property does not forbid");
     run.assume("lifecycle value `expired` and element state archived/tombstoned are not produced by any statement used here");
     run.finish();
 }
